@@ -26,7 +26,9 @@ type totCase struct {
 	Cons    [][]string `json:"header_constraints,omitempty"` // per route: Headers() pairs (nil = unconstrained)
 	NF      string     `json:"not_found"`                    // default | custom
 	MW      bool       `json:"app_middleware"`
-	Wrap    bool       `json:"handler_wrapper,omitempty"` // a HandlerWrapper is configured that runs the handler it was given and writes what it returns: every route must still run its own handler
+	Status  int        `json:"route_status,omitempty"`         // the status route handlers answer with (0 = the implicit 200); any three-digit code is the handler's choice and must not upset the framework (the request logger reads it)
+	BadNF   bool       `json:"failed_notfound_call,omitempty"` // after set-up NotFound(h, "oops") is attempted and fails loudly (recovered): the not-found chain in force stays
+	Wrap    bool       `json:"handler_wrapper,omitempty"`      // a HandlerWrapper is configured that runs the handler it was given and writes what it returns: every route must still run its own handler
 	Reqs    []totReq   `json:"requests"`
 }
 
@@ -90,7 +92,10 @@ func hostilePath(rng *rand.Rand, routes []*rmodel.Route) (string, string) {
 
 func genTotCase(rng *rand.Rand) (*totCase, []string) {
 	set := gen.GenSet(rng, gen.Cfg{AllowRoot: true}, 8)
-	c := &totCase{NF: []string{"default", "custom"}[rng.Intn(2)], MW: rng.Intn(5) != 0, Wrap: rng.Intn(4) == 0}
+	c := &totCase{NF: []string{"default", "custom"}[rng.Intn(2)], MW: rng.Intn(5) != 0, Wrap: rng.Intn(4) == 0, BadNF: rng.Intn(6) == 0}
+	if rng.Intn(3) == 0 {
+		c.Status = []int{201, 204, 299, 300, 404, 418, 499, 500, 599, 600, 601, 700, 799, 999}[rng.Intn(14)]
+	}
 	meths := [][]string{{"GET"}, {"GET", "POST"}, {"GET", "HEAD", "TRACE"}}[rng.Intn(3)]
 	for _, rt := range set {
 		c.Routes = append(c.Routes, rt.Render())
@@ -221,6 +226,9 @@ func buildTot(c *totCase) *totInstance {
 						sb.WriteString(k + "=" + ctx.Param(k) + ";")
 					}
 					ti.cur.params = sb.String()
+					if c.Status != 0 {
+						ctx.ResponseWriter().WriteHeader(c.Status)
+					}
 					return fmt.Sprintf("route-%d", i)
 				}})
 				if i < len(c.Cons) && c.Cons[i] != nil {
@@ -249,6 +257,16 @@ func buildTot(c *totCase) *totInstance {
 		}, pass, plain)
 	} else {
 		regAll()
+	}
+	if c.BadNF {
+		func() {
+			defer func() {
+				if recover() == nil {
+					ti.ok = false // a non-function handler was accepted: not this property's subject
+				}
+			}()
+			ti.f.NotFound(func() (int, string) { ti.cur.nf += 100; return 418, "left-behind" }, "oops")
+		}()
 	}
 	return ti
 }
@@ -311,7 +329,11 @@ func totVerdict(c *totCase, method string, best *rmodel.Deriv, a1, a2, b totObs)
 		if len(a1.hit) != 1 || a1.hit[0] != best.Form.RouteIdx {
 			return fmt.Sprintf("the chosen route is #%d %q, but %v ran (not-found %d)", best.Form.RouteIdx, best.Form.Route, a1.hit, a1.nf)
 		}
-		if a1.status != 200 || a1.body != bodyOf(fmt.Sprintf("route-%d", best.Form.RouteIdx)) {
+		wantStatus := 200
+		if c.Status != 0 {
+			wantStatus = c.Status
+		}
+		if a1.status != wantStatus || a1.body != bodyOf(fmt.Sprintf("route-%d", best.Form.RouteIdx)) {
 			return fmt.Sprintf("route chain: status %d body %q", a1.status, a1.body)
 		}
 	}
@@ -392,7 +414,7 @@ func judgeTotClasses(w *core.W, c *totCase, classes []string) {
 }
 
 func runC07(r *core.Run) {
-	r.Rule("valid route sets (1-8 routes of all kinds over 1-3 methods) x 30 hostile requests each: path classes {empty, slashes only, trailing slash, inner empty segments, bad escapes, non-UTF-8 / NUL, long (100-5000 segments or a 10^4-10^5 byte segment), random bytes, exact instance, near miss}; method tokens (the nine known, lower-case, empty, padded, NUL / non-UTF-8 bytes, BREW, 300 bytes; one request in twelve re-splits the bytes of method+path at another place); odd header sets; a quarter of the routes header-constrained and earlier paths re-requested with other header sets; default and custom not-found chain; with and without application middleware. Oracle: recover() around ServeHTTP, counting middleware (exactly one chain), the reference model for which chain, and equality of (chain, status, body, parameters) when the request is repeated on the same instance and on an identically rebuilt one that serves the request list in reverse order. non-trivial = distinct (route set, method class, path class, chain kind, not-found kind)")
+	r.Rule("valid route sets (1-8 routes of all kinds over 1-3 methods) x 30 hostile requests each: path classes {empty, slashes only, trailing slash, inner empty segments, bad escapes, non-UTF-8 / NUL, long (100-5000 segments or a 10^4-10^5 byte segment), random bytes, exact instance, near miss}; method tokens (the nine known, lower-case, empty, padded, NUL / non-UTF-8 bytes, BREW, 300 bytes; one request in twelve re-splits the bytes of method+path at another place); odd header sets; a quarter of the routes header-constrained and earlier paths re-requested with other header sets; default and custom not-found chain (one case in six with a later NotFound call that fails loudly and must leave the chain in force untouched); with and without application middleware; route handlers answering with the implicit 200 or one status from 201..999 (the request logger, installed in a quarter of the cases, reads it). Oracle: recover() around ServeHTTP, counting middleware (exactly one chain), the reference model for which chain, and equality of (chain, status, body, parameters) when the request is repeated on the same instance and on an identically rebuilt one that serves the request list in reverse order. non-trivial = distinct (route set, method class, path class, chain kind, not-found kind)")
 	r.Assume("req.URL is non-nil (net/http's contract); handlers are deterministic and do not panic")
 	c07Canaries(r)
 	n := r.N(10000, 800000)
